@@ -117,6 +117,9 @@ def gen_float_text(width, rng):
     return text
 
 
+INTERIOR_NUL = True
+
+
 def gen_str_text(width, rng, alphabet=PRINTABLE, min_len=0):
     """printable ASCII with inner spaces, any length up to the width, any padding"""
     if width == 0:
@@ -135,6 +138,10 @@ def gen_str_text(width, rng, alphabet=PRINTABLE, min_len=0):
     if len(text) < width and rng.random() < 0.08:
         # C-style padding: the text is terminated and filled up with NUL bytes
         return text + "\0" * (width - len(text))
+    if INTERIOR_NUL and n >= 3 and rng.random() < 0.03:
+        # a NUL inside the content, with content after it: part of the field, not padding
+        k = rng.randrange(1, n - 1)
+        text = text[:k] + "\0" + text[k + 1:]
     return pad(text, width, rng)
 
 
